@@ -343,7 +343,14 @@ func (h *H) stepDirectBlock() {
 		return
 	}
 	when := h.nextTime()
-	b := h.Chain.SignBlock(rawBlock(m, when, sortForBlock(m, txns)))
+	ordered := sortForBlock(m, txns)
+	if len(ordered) > 1 && h.Rng.Intn(3) == 0 {
+		// no rule fixes the order of transactions inside a received block: an arbitrating node
+		// re-orders them, every other node stores them as received
+		h.Rng.Shuffle(len(ordered), func(i, j int) { ordered[i], ordered[j] = ordered[j], ordered[i] })
+		h.R.Count("blocks.direct.shuffled", 1)
+	}
+	b := h.Chain.SignBlock(rawBlock(m, when, ordered))
 	h.log(fmt.Sprintf("direct block seq=%d txns=%d when=%d", b.Head.BkSeq, len(txns), when))
 	okF := h.offer(h.Fol, b, "direct")
 	h.checkState(h.Fol, "direct")
